@@ -234,3 +234,46 @@ fn c17_approximate_trees() {
     kani::cover!(n == (1usize << ZD) + 1, "fully subdivided");
     kani::cover!(n == 4, "unbalanced tree");
 }
+
+/// the recursion-depth bound, through the cfg(kani) hook `verif_approximate_to_depth`
+/// (do_approx with an explicit budget B instead of 10 + log2(len)): with a halting criterion
+/// that answers *arbitrarily* (never forced to accept), subdivision still stops at depth B on
+/// every path - left and right turns alike: all vertices are curve points on the grid k/2^B,
+/// gaps are aligned powers of two, and when the criterion never accepts the result is the full
+/// grid (every piece that did not meet the criterion sits at the bound).
+#[kani::proof]
+#[kani::unwind(12)]
+fn c17_approximate_depth_bound() {
+    let sp = BezierSpline::new(&[0.0f32, 0.0, 1.0, 3.0][..]);
+    let b: u32 = ZD;
+    let never: bool = kani::any();
+    let pts = sp.verif_approximate_to_depth(b, |_e: &f32| if never { false } else { kani::any() });
+    let n = pts.len();
+    assert!(n >= 2 && n <= (1usize << b) + 1);
+    if never { assert!(n == (1usize << b) + 1); }
+    assert!(pts[0] == 0.0 && pts[n - 1] == 3.0);
+    let scale = (1u32 << b) as f32;
+    let mut prev_k: i32 = -1;
+    let mut i = 0;
+    while i < n {
+        let mut k = prev_k + 1;
+        let mut found = false;
+        while k <= (1i32 << b) {
+            let a = k as f32 / scale;
+            if 3.0 * a * a == pts[i] { found = true; break; }
+            k += 1;
+        }
+        assert!(found);
+        if prev_k >= 0 {
+            let gap = k - prev_k;
+            assert!(gap & (gap - 1) == 0);
+            assert!(prev_k % gap == 0);
+        }
+        prev_k = k;
+        i += 1;
+    }
+    assert!(prev_k == 1 << b);
+    kani::cover!(n == 4, "unbalanced tree at the bound");
+    kani::cover!(n == 2, "accepted at once");
+    kani::cover!(never, "criterion never met");
+}
